@@ -60,19 +60,22 @@ Eol(c) == LET k == c % 8 IN
 
 EolT(c, tabok) == IF tabok \/ (c % 8) \notin {6, 7} THEN Eol(c) ELSE <<"\n">>
 
-\* ---- node properties: 0 none, 1 anchor, 2 tag !t, 3 tag !!str, 4 anchor then tag, 5 tag then anchor ----
+SecPrefix == <<"t", "a", "g", ":", "x", ":">>
+PriPrefix == <<"t", "a", "g", ":", "p", ":">>
+\* ---- node properties: 0 none, 1 anchor, 2 tag !t, 3 tag !!str, 4 anchor then tag, 5 tag then anchor, 6 the non-specific tag ! ----
 \* returns [txt (with a trailing space), aid, tag, st]
 Props(t, st, allow) ==
   LET c == IF allow THEN (Cell(t, st.i) % 8) ELSE 0
       st1 == Adv(st, 1)
       an == <<"&">> \o AnchorName(st.na)
-      tg1 == <<"!", "t">>  tv1 == << <<"!">>, <<"t">> >>
+      tg1 == <<"!", "t">>  tv1 == << (IF st.sec = <<>> THEN <<"!">> ELSE PriPrefix), <<"t">> >>      \* a document that redefines "!!" also gives "!" a prefix
       tg2 == <<"!", "!", "s", "t", "r">>  tv2 == << (IF st.sec = <<>> THEN YamlTag ELSE st.sec), <<"s", "t", "r">> >>
   IN IF c = 1 THEN [txt |-> an \o <<" ">>, aid |-> st.na, tag |-> <<>>, st |-> [st1 EXCEPT !.na = @ + 1]]
      ELSE IF c = 2 THEN [txt |-> tg1 \o <<" ">>, aid |-> 0, tag |-> tv1, st |-> st1]
      ELSE IF c = 3 THEN [txt |-> tg2 \o <<" ">>, aid |-> 0, tag |-> tv2, st |-> st1]
      ELSE IF c = 4 THEN [txt |-> an \o <<" ">> \o tg1 \o <<" ">>, aid |-> st.na, tag |-> tv1, st |-> [st1 EXCEPT !.na = @ + 1]]
      ELSE IF c = 5 THEN [txt |-> tg2 \o <<" ", " ">> \o an \o <<" ">>, aid |-> st.na, tag |-> tv2, st |-> [st1 EXCEPT !.na = @ + 1]]
+     ELSE IF c = 6 THEN [txt |-> <<"!", " ">>, aid |-> 0, tag |-> << <<>>, <<"!">> >>, st |-> st1]             \* the non-specific tag: never resolved through a handle
      ELSE [txt |-> <<>>, aid |-> 0, tag |-> <<>>, st |-> st1]
 \* after the node carrying anchor `aid` is complete it may be the target of an alias
 Done(st, aid) == IF aid > 0 THEN [st EXCEPT !.av = Append(@, aid)] ELSE st
@@ -315,7 +318,6 @@ BlockMap(t, st, n, inl, d, props) ==
 
 \* ---- documents ----
 \* one document: returns R; `first` = it is the first document of the stream (may be bare)
-SecPrefix == <<"t", "a", "g", ":", "x", ":">>
 Doc(t, st, D, first, prevOpen) ==
   LET c == (Cell(t, st.i) % 8)
       explicit == ~first \/ c >= 4 \/ prevOpen
@@ -333,7 +335,7 @@ Doc(t, st, D, first, prevOpen) ==
       rootBlock == kind = 7 /\ explicit /\ (Cell(t, st1.i + 1) % 2) = 1
       sameLine == explicit /\ kind \in {4, 5, 7} /\ (Cell(t, body.i) % 2) = 1      \* "--- node" on the marker line
       head == (IF yamlDir THEN <<"%", "Y", "A", "M", "L", " ", "1", ".", "2", "\n">> ELSE <<>>)
-              \o (IF tagDir THEN <<"%", "T", "A", "G", " ", "!", "!", " ">> \o SecPrefix \o <<"\n">> ELSE <<>>)
+              \o (IF tagDir THEN <<"%", "T", "A", "G", " ", "!", "!", " ">> \o SecPrefix \o <<"\n", "%", "T", "A", "G", " ", "!", " ">> \o PriPrefix \o <<"\n">> ELSE <<>>)
               \o (IF explicit THEN <<"-", "-", "-">> \o (IF rootBlock THEN <<>> ELSE IF sameLine THEN <<" ">> ELSE Eol(Cell(t, body.i + 1))) ELSE <<>>)
       endMark == (Cell(t, body.i + 2) % 4) = 3
       tail == IF endMark THEN <<".", ".", ".">> \o Eol(Cell(t, body.i + 3)) ELSE <<>>
